@@ -13,7 +13,8 @@
    The checkers [linear_path_valid], [ssa_path_valid], [tree_complete_b] are what the
    check runs, inside Coq, on every path / tree the real optimizers return. *)
 From Coq Require Import Lia Permutation.
-From Ctg Require Import Base Net PathValid Processor BaseFacts PathValidFacts ProcessorFacts BuilderFacts SsaLinearFacts RefineFacts GoodFacts RandomFacts.
+From Ctg Require Import Base Net PathValid Processor BaseFacts PathValidFacts ProcessorFacts BuilderFacts SsaLinearFacts RefineFacts GoodFacts RandomFacts EdgeBridgeFacts.
+From Ctg Require Paths.
 
 (* ---- path_valid_sound -------------------------------------------------------- *)
 (* an accepted linear path: every step references existing distinct positions, the
@@ -156,6 +157,34 @@ Theorem C05_optimal_pipeline_valid : forall inputs output sizes orders comps (si
 Proof. exact optimal_pipeline_valid. Qed.
 Print Assumptions C05_optimal_pipeline_valid.
 
+(* ---- edge_path_valid ------------------------------------------------------------------ *)
+(* [Paths.edge_path_to_ssa] is the C10 model of path_basic.edge_path_to_ssa (Model/Paths.v, tied to
+   the code by the C10 correspondence, proved valid in Proofs/PathsEdge.v).  For EVERY network and
+   EVERY list of indices (repeated or unknown ones stop the conversion, the steps emitted so far
+   count) the emitted ssa path only uses ids that exist and are unused, with >= 1 tensor per step:
+   it is accepted by ssa_path_prefix_valid ... *)
+Theorem C05_edge_path_ssa_prefix_valid : forall inputs ep,
+  ssa_path_prefix_valid (length inputs) (fst (Paths.edge_path_to_ssa ep inputs)) = true.
+Proof. exact edge_path_ssa_prefix_valid. Qed.
+Print Assumptions C05_edge_path_ssa_prefix_valid.
+
+(* ... so from_path_ssa_complete applies: from_path(edge_path=...) builds, with the completion of
+   what an edge path over a disconnected network leaves, a binary tree over exactly the inputs *)
+Theorem C05_edge_path_from_path_complete : forall (sub : list nset -> path) inputs ep,
+  (forall ls : list nset, 3 <= length ls -> binary_path_valid (length ls) (sub ls) = true) ->
+  1 <= length inputs ->
+  exists t, from_path_ssa sub (length inputs) (fst (Paths.edge_path_to_ssa ep inputs)) = Some t /\
+            Permutation (leaves t) (seq 0 (length inputs)).
+Proof. exact edge_path_from_path_complete. Qed.
+Print Assumptions C05_edge_path_from_path_complete.
+
+(* ... and edge_path_to_linear (= ssa_to_linear of it) only references existing positions *)
+Theorem C05_edge_path_linear_prefix_valid : forall inputs ep,
+  exists q, ssa_to_linear (length inputs) (fst (Paths.edge_path_to_ssa ep inputs)) = Some q /\
+            linear_path_prefix_valid (length inputs) q = true.
+Proof. exact edge_path_linear_prefix_valid. Qed.
+Print Assumptions C05_edge_path_linear_prefix_valid.
+
 (* ---- random_path_valid ---------------------------------------------------------------- *)
 (* RandomOptimizer.__call__ with ANY stream of random numbers (randint(0, Nrem) = raw mod
    (Nrem+1); the rejection loop `while j == i` may exhaust the stream = None): whenever it returns,
@@ -212,6 +241,11 @@ Example C05_nonvacuous_pipeline :
   (cp_ok c = true) /\ (length (cp_nodes c) = 1) /\ (ssa_path_valid 5 (cp_path c) = true) /\
   (random_optimizer_path 4 [3; 3; 1; 0; 2; 1; 1; 0] = Some [[3; 1]; [0; 2]; [1; 0]]).
 Proof. vm_compute. repeat split. Qed.
+Example C05_nonvacuous_edge :
+  fst (Paths.edge_path_to_ssa [1; 0] [[0; 1]; [1; 2]; [0]]) = [[0; 1]; [2; 3]] /\
+  from_path_ssa (sub_of_table []) 3 (fst (Paths.edge_path_to_ssa [1] [[0; 1]; [1; 2]; [0]])) =
+    Some (Node (Node (Leaf 0) (Leaf 1)) (Leaf 2)).
+Proof. vm_compute. split; reflexivity. Qed.
 Example C05_nonvacuous_processor :
   exists a, a_run (a_init 4) [ASingle 1; AContract 0 4; AContract 2 3] = Some a /\
             (a_present a = [5; 6]) /\ (a_path a = [[1]; [0; 4]; [2; 3]]).
